@@ -89,7 +89,13 @@ Proof.
   - rewrite !(nth_overflow (map _ _)); try (rewrite map_length, seq_length; assumption). cbn. destruct i, j; reflexivity.
 Qed.
 
-(* clauses "always terminates" and "closed-tour cost never above the input's":
+(* clause "always terminates", inner part: one improvement step (the mutually recursive choose_x / choose_y search, which
+   the code bounds only through the growth of `broken` inside the tour's edge set) never exhausts the model's fuel
+   `length p + 2`, for every matrix, neighbour lists, hash order and path *)
+Theorem C17_lkh_improve_terminates_partial : forall cm nb ho p, improve cm nb ho p <> Fuel.
+Proof. exact improve_nofuel. Qed.
+
+(* clauses "always terminates" (outer loop of KOpt::optimize) and "closed-tour cost never above the input's":
      FULL STATEMENT (not proved):  forall symmetric cm, nb, ho, p:
         (exists ofuel q, optimize cm nb ho ofuel p = Found q)   and
         (optimize cm nb ho ofuel p = Found q -> cycle_cost cm q <= cycle_cost cm p).
